@@ -11,7 +11,7 @@ TRUSTED_BASE = _base.STD_TRUSTED + [
 ]
 ASSUMPTIONS = ["calls use initialize_model=False, process_outputs=False; num_steps >= 1 (smaller raises ValueError in the code)"]
 RULE = ("correspondence as C07 (with partitions); monitor: implementation vs implementation, every composition of short windows and random partitions "
-        "of long ones, bitwise tables + status after every call; distinct = distinct (configuration, partition list)")
+        "of long ones (every second one with another model built, initialised or run from the same input objects between the calls), bitwise tables + status after every call; distinct = distinct (configuration, partition list)")
 
 
 def suites(ctx):
@@ -39,9 +39,12 @@ def monitor(ctx):
         rng = rng_for("C09", "long", i)
         cfg = sim.gen_config(rng)
         parts = [[rng.choice([1, 1, 2, 3, 10, 50, 200, 1000]) for _ in range(rng.randint(1, 40))] for _ in range(2 if not thorough else 4)]
+        # odd partitions are run with activity between the calls (worker_C09): give them pauses spread over the seasons
+        for j in range(1, len(parts), 2):
+            parts[j] = [rng.choice([1, 20, 45, 90, 150, 200, 365]) for _ in range(rng.randint(3, 12))]
         payloads.append({"cfg": cfg, "partitions": parts})
     return _base.run_monitor(monitors2.worker_C09, payloads, timeout=600)
 
 
 def replay(data):
-    return _base.replay_worker(monitors2.worker_C09, data, {"partitions": [data.get("violation", {}).get("partition") or [1, 2, 3]]})
+    return _base.replay_worker(monitors2.worker_C09, data, {"partitions": [data.get("violation", {}).get("partition") or [1, 2, 3]], "between_all": bool(data.get("violation", {}).get("between"))})
